@@ -1,8 +1,143 @@
-(* C16 - first theorems; extended as Refine.v / Special.v / Stream.v / Life.v are delivered *)
+(* C16 - arguments are consumed only on success (model level).
+   [uprase_gen] is the common body of insert, insert_or_assign, upsert, uprase_fn, locked_table::insert
+   and operator[]; its result (inserted, functor log, position) says whether the new element was
+   constructed from the arguments.  C16_stored_iff_absent: for a PRESENT key - found at once, after
+   displacement or after any number of expansions - the result is (false, ..), no exception is possible,
+   the table keeps its hashpower and the passed value never enters the table ([upd_holds] only mentions
+   the functor's result on the OLD value); for an ABSENT key the pair (k, v) is added exactly once.
+   C16_duplicate_detected_whatever_the_path: the insert loop reports St_duplicated iff the key was present.
+   Heterogeneous lookup: every operation depends on the key only through [hash k] and key equality
+   (the model has no other access to keys); the harness instantiates lookups with a key-like type that is
+   not convertible to key_type.  Value categories / moves are observed on the real library with
+   instrumented argument objects (T1: "consumed=" flags compared with the model).
+   Statements only; closed by [exact] of lemmas of Refine.v / Lazy.v. *)
 From Coq Require Import NArith ZArith List.
-From LC Require Import gen.HashGen Core Api InvDefs Stats Resize.
+From LC Require Import gen.HashGen Core Api InvDefs ArrLemmas Stats InsertLemmas Resize Lazy Refine.
 Import ListNotations.
 Local Open Scope N_scope.
-Theorem C16_placeholder_set_nrem_zero_frees_old : forall t, set_nrem t 0 = set_old (set_nrem_raw t 0) (bdealloc (old t)).
-Proof. exact set_nrem_zero. Qed.
-Print Assumptions C16_placeholder_set_nrem_zero_frees_old.
+
+Theorem C16_stored_iff_absent :
+  forall (c : config) (hash : N -> N),
+  cfg_ok c ->
+  forall (mode : bool) (t : table) (k : N) (v : Z) (g : Z -> bool -> option (Z * bool)),
+  nothrow c = true ->
+  good c hash t ->
+  immediate c mode t ->
+  forall (t' : table) (r : exn + bool * list rv * (N * N)),
+  uprase_gen c hash mode t k v g = (t', r) ->
+  (forall v0 : Z,
+  holds (cur t) k v0 ->
+  exists b s : N,
+  r = inr (false, log_of g v0 false, (b, s)) /\
+  good c hash t' /\
+  lim_same t t' /\
+  immediate c mode t' /\
+  bhp (cur t') = bhp (cur t) /\
+  upd_holds (cur t) (cur t') k (final_of g v0 false) /\
+  (forall vf : Z,
+  final_of g v0 false = Some vf ->
+  exists e : entry, bget (cur t') b s = Some e /\ ekey e = k /\ eval e = vf)) /\
+  (~ key_in (cur t) k ->
+  esc c hash t \/
+  (exists e : exn, r = inl e /\ exn_ok c true t t' e /\ evolves c hash t t' /\ immediate c mode t') \/
+  (exists b s : N,
+  r = inr (true, log_of g v true, (b, s)) /\
+  good c hash t' /\
+  lim_same t t' /\
+  immediate c mode t' /\
+  bhp (cur t) <= bhp (cur t') /\
+  upd_holds (cur t) (cur t') k (final_of g v true) /\
+  (forall vf : Z,
+  final_of g v true = Some vf ->
+  exists e : entry, bget (cur t') b s = Some e /\ ekey e = k /\ eval e = vf))).
+Proof. exact uprase_gen_good. Qed.
+Print Assumptions C16_stored_iff_absent.
+
+Theorem C16_duplicate_detected_whatever_the_path :
+  forall (c : config) (hash : N -> N),
+  cfg_ok c ->
+  forall (mode : bool) (fuel : nat) (t : table) (k : N),
+  nothrow c = true ->
+  good c hash t ->
+  immediate c mode t ->
+  forall (t' : table) (res : il_result),
+  cuckoo_insert_loop c hash (cuckoo_fast_double c hash) mode t k (i1_of hash (bhp (cur t)) k)
+  (i2_of hash (bhp (cur t)) k) (S fuel) = (t', res) ->
+  esc c hash t \/
+  evolves c hash t t' /\
+  immediate c mode t' /\
+  match res with
+  | IL_pos pos j1 j2 =>
+  j1 = i1_of hash (bhp (cur t')) k /\
+  j2 = i2_of hash (bhp (cur t')) k /\
+  (pstatus pos = St_duplicated /\
+  key_in (cur t) k /\
+  bhp (cur t') = bhp (cur t) /\
+  (exists e : entry, bget (cur t') (pindex pos) (pslot pos) = Some e /\ ekey e = k) \/
+  pstatus pos = St_ok /\
+  ~ key_in (cur t) k /\
+  bget (cur t') (pindex pos) (pslot pos) = None /\
+  cand hash (bhp (cur t')) k (pindex pos) /\ pslot pos < spb c)
+  | IL_exn e => ~ key_in (cur t) k /\ exn_ok c true t t' e
+  end.
+Proof. exact cuckoo_insert_loop_good. Qed.
+Print Assumptions C16_duplicate_detected_whatever_the_path.
+
+Theorem C16_present_key_no_expansion_no_exception :
+  forall (c : config) (hash : N -> N),
+  cfg_ok c ->
+  forall (fd : bool -> table -> N -> rres) (mode : bool) (t : table) (k : N) (fuel : nat),
+  good c hash t ->
+  key_in (cur t) k ->
+  forall (t' : table) (res : il_result),
+  cuckoo_insert_loop c hash fd mode t k (i1_of hash (bhp (cur t)) k) (i2_of hash (bhp (cur t)) k)
+  (S fuel) = (t', res) ->
+  exists pos : table_position,
+  res = IL_pos pos (i1_of hash (bhp (cur t)) k) (i2_of hash (bhp (cur t)) k) /\
+  evolves c hash t t' /\
+  bhp (cur t') = bhp (cur t) /\
+  pstatus pos = St_duplicated /\
+  (exists e : entry, bget (cur t') (pindex pos) (pslot pos) = Some e /\ ekey e = k).
+Proof. exact insert_loop_present. Qed.
+Print Assumptions C16_present_key_no_expansion_no_exception.
+
+Theorem C16_duplicate_through_deferred_migration :
+  forall (c : config) (hash : N -> N),
+  cfg_ok c ->
+  forall (t : table) (k : N) (v : Z) (t2 : table) (pos : table_position),
+  wf c hash t ->
+  let hp := bhp (cur t) in
+  let i1 := i1_of hash hp k in
+  let i2 := i2_of hash hp k in
+  let t1 := lock_two c hash false t i1 i2 in
+  cuckoo_insert c hash false t1 k i1 i2 = (t2, CI_pos pos) ->
+  pstatus pos = St_duplicated ->
+  uprase_gen c hash false t k v (fun (_ : Z) (_ : bool) => None) =
+  (t2, inr (false, [], (pindex pos, pslot pos))) /\
+  (exists v0 : Z, lholds c t k v0) /\
+  wf c hash t2 /\
+  lmv c t t2 /\ (exists e : entry, bget (cur t2) (pindex pos) (pslot pos) = Some e /\ ekey e = k).
+Proof. exact uprase_gen_insert_dup_wf. Qed.
+Print Assumptions C16_duplicate_through_deferred_migration.
+
+Theorem C16_new_key_through_deferred_migration :
+  forall (c : config) (hash : N -> N),
+  cfg_ok c ->
+  forall (t : table) (k : N) (v : Z) (t2 : table) (pos : table_position),
+  wf c hash t ->
+  let hp := bhp (cur t) in
+  let i1 := i1_of hash hp k in
+  let i2 := i2_of hash hp k in
+  let t1 := lock_two c hash false t i1 i2 in
+  cuckoo_insert c hash false t1 k i1 i2 = (t2, CI_pos pos) ->
+  pstatus pos = St_ok ->
+  exists t3 : table,
+  uprase_gen c hash false t k v (fun (_ : Z) (_ : bool) => None) =
+  (t3, inr (true, [], (pindex pos, pslot pos))) /\
+  (forall v0 : Z, ~ lholds c t k v0) /\
+  wf c hash t3 /\
+  bhp (cur t3) = bhp (cur t) /\
+  (lcounted c t -> lcounted c t3) /\
+  (forall (k' : N) (v' : Z), lholds c t3 k' v' <-> k' = k /\ v' = v \/ k' <> k /\ lholds c t k' v').
+Proof. exact uprase_gen_insert_new_wf. Qed.
+Print Assumptions C16_new_key_through_deferred_migration.
